@@ -73,7 +73,7 @@ func genTopo(tp *simkit.Tape, small bool) topo {
 	useConn := tp.Chance(2, 3)
 	names := "abcde"
 	for i := 0; i < np; i++ {
-		sig := signals[tp.Draw(3)]
+		sig := drawSignal(tp)
 		p := pipeCfg{Name: fmt.Sprintf("%s/%c", sig, names[i]), Sig: sig}
 		p.Recv = pick(tp, recvPool, tp.Range(1, 2))
 		p.Proc = pick(tp, procPool, tp.Draw(4))
@@ -231,7 +231,7 @@ func (t *topo) routes(recv, sig string) []delivery {
 			}
 			// one connector instance per (from,to) signal pair; it forwards once to the fan-out of all pipelines
 			// of signal `to` that list it as receiver
-			for _, to := range signals {
+			for _, to := range allSignals {
 				if !connSupports(typeOf(e), p.Sig, to) {
 					continue
 				}
@@ -361,7 +361,7 @@ func (t *topo) pipeMutates(p pipeCfg) bool {
 		}
 		// one consumer per (connector, target signal) in use. A connector between pipelines of the same signal may
 		// pass the payload along, so it counts as mutating when a pipeline it feeds mutates; a converting one does not.
-		for _, to := range signals {
+		for _, to := range allSignals {
 			if !connSupports(typeOf(x), p.Sig, to) {
 				continue
 			}
@@ -521,6 +521,7 @@ func runRouting(r *simkit.Run, prop string) {
 		if len(wantD) > 1 {
 			r.Nontrivial = true
 		}
+		r.CountN("probe.deliveries_checked/"+in.sig, int64(len(wantD)))
 	}
 	if err := srv.Shutdown(context.Background()); err != nil {
 		r.Failf("build", "shutdown-failed", "shutdown failed without any injected fault: %v", err)
@@ -551,7 +552,7 @@ var svcStub = []string{"leaf components: instrumented stub receivers, processors
 
 var HarnessC09 = simkit.Harness{
 	Prop: "C09", Name: "svc/c09", Run: runC09, StepTimeout: 20e9, Real: svcReal, Stub: svcStub, HashInsensitive: true,
-	Rule: "one run = one generated service configuration (1-5 pipelines over 3 signals, shared and signal-sharing receivers, 0-3 processors, 1-2 exporters, up to 3 connector wirings of three connector types incl. unsupported pairs, dangling usage and cycles) built and started by the real service; one tagged payload is injected at every (receiver, signal) and the deliveries (exporter, processor/connector trail) are compared with an independent reachability walk of the configuration; invalid configurations must be rejected with nothing started; distinct = distinct event-log hash; non-trivial = a payload with >1 expected delivery or an invalid topology. Limit: the schedule/fault dimension adds little to this property; the deciding content is the seeded topology search through the real build and runtime",
+	Rule: "one run = one generated service configuration (1-5 pipelines over 4 signals incl. profiles, shared and signal-sharing receivers, 0-3 processors, 1-2 exporters, up to 3 connector wirings of five connector types (the real forward connector among them) incl. unsupported pairs, dangling usage and cycles) built and started by the real service; one tagged payload is injected at every (receiver, signal) and the deliveries (exporter, processor/connector trail) are compared with an independent reachability walk of the configuration; invalid configurations must be rejected with nothing started; distinct = distinct event-log hash; non-trivial = a payload with >1 expected delivery or an invalid topology. Limit: the schedule/fault dimension adds little to this property; the deciding content is the seeded topology search through the real build and runtime",
 }
 
 // ---- C10 ----------------------------------------------------------------------------------------------------
@@ -646,7 +647,7 @@ func (t *topo) pipeSinks(p pipeCfg) []string {
 			out = append(out, "exporter:"+e+":"+p.Sig)
 			continue
 		}
-		for _, to := range signals {
+		for _, to := range allSignals {
 			if !connSupports(typeOf(e), p.Sig, to) {
 				continue
 			}
